@@ -20,6 +20,6 @@ PROP = {
 META = {
     "design_ref": "DESIGN.md section 4, C10",
     "technique": "PBT over generated multi-thread scenarios (rapidcheck) with schedule-point perturbation, history oracle (greedy parse of the sink output into whole appends), ThreadSanitizer + ASan builds, cleanup watchdog",
-    "level_text": "Generated configurations (buffer size from 1 byte, min/max counts, interval 1 ms..1 h), 1-6 real producer threads with generated append sizes/pauses and randomised delays at the H4 schedule points; the oracle parses the concatenated sink blocks into whole appends (contiguity, per-producer order, lossless, no duplicates), checks callbacks never overlap and that everything is delivered when cleanup() returns; TSan reports and watchdog expiries (cleanup with a 1 h interval) are failures. Exploration: interleavings are sampled, not enumerated.",
+    "level_text": "Generated configurations (buffer size from 1 byte, min/max counts, interval 1 ms..1 h), 1-6 real producer threads with generated append sizes/pauses and randomised delays at the H4 schedule points; the oracle parses the concatenated sink blocks into whole appends (contiguity, per-producer order, lossless, no duplicates), checks callbacks never overlap and that everything is delivered when cleanup() returns; TSan reports and watchdog expiries (cleanup with a 1 h interval) are failures. Exploration: interleavings are sampled, not enumerated. Later additions (seeding rounds): 1-3 lives of one pipe object, the callback installed before or after initialize(), grouped appends that keep the append lock across flush intervals, and the buff_min_num = 0 probe.",
     "level_note": "Trusted: TSan/ASan, the byte scheme (top 3 bits = producer, low 5 bits = running count mod 32), OS scheduler for the interleavings actually seen. Limits L2/L3 of DESIGN.md section 1 apply.",
 }
